@@ -135,6 +135,16 @@ reg('C11', 'model_checking',
     'Trusted: refpgp.armor / refpgp.sig. Texts containing a lone CR are excluded (RFC 4880 does not define whether it ends a line).',
     'exhaustive text enumeration on the real writer / reader / signer / verifier, differential against an independent implementation', 'DESIGN.md 2/C11')
 
+reg('C20', 'model_checking',
+    'Product content (9: empty, ASCII, str / bytes UTF-8, all octets, CRLF, NULs, 64 KiB random; thorough 1 MiB) x format {auto, b, t, u} x file name {none, ASCII, '
+    '_CONSOLE, non-ASCII, 255 octets, spaces} x compression (4); 0-3 signers of differing algorithms in every order at equal / increasing / decreasing times x '
+    'compression; sign-then-encrypt and encrypt-then-sign x recipients; every export is parsed by an independent RFC 4880 11.3 grammar recogniser (n one-pass '
+    'packets, literal, n signatures, i-th one-pass packet describing the (n-1-i)-th signature, only the last flagged final, compression around the whole signed '
+    'sequence, session-key packets then one container) and re-imported from binary and armor (content, name, time, format, compression, signature multiset); '
+    'reference-made messages in old-format / partial-length framing and reference compression are imported, verified and re-exported.',
+    'Trusted: refpgp.msg grammar recogniser and packet parsers (validated at setup against GnuPG-made fixture messages).',
+    'exhaustive configuration enumeration on the real builder / exporter / importer vs. independent grammar recogniser', 'DESIGN.md 2/C20')
+
 ALL = ['C%02d' % i for i in range(1, 21)]
 
 NOT_YET = 'check not built yet in this revision of /verif (work in progress; see DESIGN.md section 8)'
